@@ -144,9 +144,17 @@ def bfs_prefixes(g):
     return pre
 
 
-def replay_path(ctx, g, path, backing, traces, metas):
+def replay_path(ctx, g, path, backing, traces, metas, scale=1):
     init = bytes(g.states[g.init[0]]["mem"])
-    ar = mb.make_arena(backing, init, traces, metas)
+    if scale > 1:
+        try:
+            ar = mb.ScaledArena(backing, init, scale)
+        except core.MachineryError:
+            raise
+        except Exception:
+            return None, None          # set-up failures are recorded by the unscaled replays
+    else:
+        ar = mb.make_arena(backing, init, traces, metas)
     if ar is None:
         return None, "%s: arena setup failed" % backing
     tr = ar.header()
@@ -168,14 +176,15 @@ def replay_path(ctx, g, path, backing, traces, metas):
             problems.append("read %r, model %r" % (ev["out"], list(res["out"])))
         if res["op"] == "frombuf" and res["st"] == "ok" and ev["num"] != res["out"][0]:
             problems.append("from_buffer length %r, model %r" % (ev["num"], res["out"][0]))
-        if ar.snap() != bytes(st["mem"]):
-            problems.append("contents %r, model %r" % (list(ar.snap()), list(st["mem"])))
+        cur = ar.snap_units() if scale > 1 else list(ar.snap())
+        if cur != list(st["mem"]):
+            problems.append("contents %r, model %r" % (cur, list(st["mem"])))
         if len(ar.bufs) != len(st["bufs"]) or len(ar.fbs) != len(st["fbs"]):
             problems.append("%d buffers / %d views, model %d / %d" % (len(ar.bufs), len(ar.fbs), len(st["bufs"]), len(st["fbs"])))
         if not ar.live_ok():
             problems.append("a buffer does not show the arena bytes it covers")
         if problems:
-            div = "%s %s: %s" % (backing, {k: res[k] for k in ("op", "b", "i", "j", "n")}, "; ".join(problems))
+            div = "%s x%d %s: %s" % (backing, scale, {k: res[k] for k in ("op", "b", "i", "j", "n")}, "; ".join(problems))
             break
     return tr, div
 
@@ -216,8 +225,25 @@ def spec_to_code(ctx, jobs, traces, metas, divergences):
             metas.append({"kind": "replay", "backing": backing})
         if div:
             divergences.append(div)
+    # (1b) scaled replay: the same behaviours with every model byte rendered as K real bytes, so that the
+    # model's memmove triples / buffers / slices are copies and views of 33 KB .. 280 KB
+    def scalable(n, e):
+        ops = [g.states[x[2]]["res"] for x in pre[n] + [e]]
+        return all(r["op"] in mb.SCALED_OPS for r in ops) and any(r["op"] == "move" and r["n"] >= 1 for r in ops)
+    big = [(n, e) for (n, e) in edges if scalable(n, e)]
+    nbig = 45 if q else 900
+    for idx, (n, e) in enumerate(big[:nbig]):
+        backing = mb.BACKINGS[idx % 3]
+        scale = (70000, 70000, 33000, 70000, 4096)[idx % 5]
+        tr, div = replay_path(ctx, g, pre[n] + [e], backing, traces, metas, scale)
+        if tr is not None:
+            traces.append(tr)
+            metas.append({"kind": "scaled-replay", "backing": backing, "scale": scale})
+        if div:
+            divergences.append(div)
     ctx.cov.setdefault("graphs", []).append({"module": "Buffer", "states": len(g.states), "edges": len(edges),
-                                             "edges_replayed": min(budget, len(edges))})
+                                             "edges_replayed": min(budget, len(edges)),
+                                             "edges_replayed_scaled": min(nbig, len(big))})
     # (2) the exhaustive pure cases on real objects
     dump = os.path.join(ctx.tmp, "bufs")
     conf = slice_dump_conf(ctx)
@@ -281,9 +307,17 @@ def rand_bound(rng, n):
     return rng.choice([10 ** 6, -10 ** 6, 2 ** 30, -2 ** 30])
 
 
-def random_trace(ctx, rng, backing, n, nops, traces=None, metas=None):
+def random_trace(ctx, rng, backing, n, nops, traces=None, metas=None, scale=1):
     init = bytes(rng.getrandbits(8) for _ in range(n))
-    ar = mb.make_arena(backing, init, traces, metas) if traces is not None else mb.BufArena(backing, init)
+    if scale > 1:
+        try:
+            ar = mb.ScaledArena(backing, init, scale)
+        except core.MachineryError:
+            raise
+        except Exception:
+            return None
+    else:
+        ar = mb.make_arena(backing, init, traces, metas) if traces is not None else mb.BufArena(backing, init)
     if ar is None:
         return None
     tr = ar.header()
@@ -296,6 +330,8 @@ def random_trace(ctx, rng, backing, n, nops, traces=None, metas=None):
             ops += ["getidx"] * 6 + ["setidx"] * 6 + ["getslice"] * 12 + ["setslice"] * 14
         if ar.fbs:
             ops += ["fbget"] * 4 + ["fbset"] * 4
+        if scale > 1:
+            ops = [x for x in ops if x in mb.SCALED_OPS] + ["move"] * 10
         o = rng.choice(ops)
         op = {"op": o}
         if o == "buffer":
@@ -377,6 +413,16 @@ def code_to_spec(ctx, traces, metas):
         if tr is not None:
             traces.append(tr)
             metas.append({"kind": "random", "backing": backing, "n": n})
+    # large objects: 3..20 units of 4 KiB .. 100 KB each (copies up to ~2 MB, every overlap direction)
+    for t in range(9 if ctx.quick else 240):
+        backing = mb.BACKINGS[t % 3]
+        scale = (70000, 65536, 4096, 32768, 100002, 70000)[t % 6]
+        n = rng.randint(3, 20 if scale > 5000 else 64)
+        n += n % 2
+        tr = random_trace(ctx, rng, backing, n, 18, None, None, scale)
+        if tr is not None:
+            traces.append(tr)
+            metas.append({"kind": "random-scaled", "backing": backing, "n": n, "scale": scale})
     ctx.sample({"kind": "random buffer history", "meta": metas[-1],
                 "events": [{k: e[k] for k in ("op", "b", "i", "j", "n", "st", "out")} for e in traces[-1]["ev"][:10]]}, limit=3)
 
@@ -406,7 +452,8 @@ def judge(ctx, traces, metas, bad):
     for k, clause, pos in bad:
         tr = traces[k]
         e = tr["ev"][pos - 1] if 0 < pos <= len(tr["ev"]) else {}
-        ctx.violation("%s:%s" % (clause, tr["backing"]), CLAUSE.get(clause, clause),
+        ctx.violation("%s:%s%s" % (clause, tr["backing"], ":units-of-%d-bytes" % tr["scale"] if tr.get("scale", 1) > 1 else ""),
+                      CLAUSE.get(clause, clause),
                       {"meta": metas[k], "trace": tr, "failing_event_index": pos, "failing_event": e})
 
 
@@ -447,7 +494,10 @@ def replay(ctx, obj):
     rp = obj["replay"]
     t0 = rp["trace"]
     extra, em = [], []
-    ar = mb.make_arena(t0["backing"], bytes(t0["mem"]), extra, em)
+    if t0.get("scale", 1) > 1:
+        ar = mb.ScaledArena(t0["backing"], bytes(t0["mem"]), t0["scale"])
+    else:
+        ar = mb.make_arena(t0["backing"], bytes(t0["mem"]), extra, em)
     if ar is None:
         tr = extra[0]
     else:
